@@ -420,6 +420,9 @@ class ParamNameInterface(_ParamMixin):
     def infer_default(self):
         return NO_VALUES
 
+    def infer_annotation(self, execute_annotation=True, ignore_stars=False):
+        return NO_VALUES
+
 
 class BaseTreeParamName(ParamNameInterface, AbstractTreeName):
     annotation_node = None
